@@ -1643,7 +1643,8 @@ func AggregateTraversalCountShapeForQuery(query *cypher.RegularQuery) (Aggregate
 	}
 
 	terminalMatch, relationship, terminalNode, terminalSymbol, ok := aggregateTraversalMatch(part.ReadingClauses[1], sourceSymbol)
-	if !ok {
+	if !ok || terminalSymbol == sourceSymbol {
+		// (s)-[*1..]->(s) only matches traversals that return to their source; the lowering has no such constraint
 		return AggregateTraversalCountShape{}, false
 	}
 
